@@ -162,35 +162,35 @@ def check_mle(ctx):
     if acc is None:
         ctx.ob('mle-form', fi, loop, False, 'no running set of visited attributes initialised empty before the loop')
         return
-    sep_stmt = upd_idx = sep_idx = store = None
-    sepvar = None
-    for i, s in enumerate(loop.body):
-        if isinstance(s, ast.Assign) and len(s.targets) == 1 and isinstance(s.targets[0], ast.Name):
-            names = {n.id for n in ast.walk(s.value) if isinstance(n, ast.Name)}
-            if acc in names and cl in names and sep_idx is None:
-                sep_idx, sep_stmt, sepvar = i, s, s.targets[0].id
-        if isinstance(s, ast.Expr) and isinstance(s.value, ast.Call) and U(s.value.func) in (acc + '.update',) \
-                and U(s.value.args[0]) == cl:
+    from ..normalise import Defs, expand
+    defs = Defs(loop.body)
+    store = upd_idx = None
+    for i, st in enumerate(loop.body):
+        if isinstance(st, ast.Expr) and isinstance(st.value, ast.Call) and U(st.value.func) == acc + '.update' \
+                and U(st.value.args[0]) in (cl, 'set(%s)' % cl):
             upd_idx = i
-        if isinstance(s, ast.AugAssign) and U(s.target) == acc and isinstance(s.op, ast.BitOr):
+        if isinstance(st, ast.AugAssign) and U(st.target) == acc and isinstance(st.op, ast.BitOr):
             upd_idx = i
-        if isinstance(s, ast.Assign) and isinstance(s.targets[0], ast.Subscript) and U(s.targets[0].slice) == cl:
-            store = s
-    ok_sep = False
-    if sep_stmt is not None:
-        v = sep_stmt.value
-        if isinstance(v, ast.Call) and isinstance(v.func, ast.Name) and v.func.id in ('tuple', 'list', 'sorted') and len(v.args) == 1:
-            v = v.args[0]
-        ok_sep = isinstance(v, ast.BinOp) and isinstance(v.op, ast.BitAnd) and \
-            {U(v.left), U(v.right)} in ({acc, 'set(%s)' % cl},)
-    ctx.ob('mle-form', fi, sep_stmt or loop, ok_sep and upd_idx is not None and sep_idx is not None and sep_idx < upd_idx,
+        if isinstance(st, ast.Assign) and isinstance(st.targets[0], ast.Subscript) and U(st.targets[0].slice) == cl:
+            store = (i, st)
+    # where is `acc & set(cl)` evaluated?
+    sep_idx = None
+    for i, st in enumerate(loop.body):
+        for n in ast.walk(st):
+            if isinstance(n, ast.BinOp) and isinstance(n.op, ast.BitAnd) and {U(n.left), U(n.right)} == {acc, 'set(%s)' % cl}:
+                sep_idx = i if sep_idx is None else min(sep_idx, i)
+    ok_order = sep_idx is not None and upd_idx is not None and sep_idx < upd_idx
+    ctx.ob('mle-form', fi, loop.body[sep_idx] if sep_idx is not None else loop, ok_order,
            'separator must be (attributes of ALL previously visited cliques) & clique, computed before the running '
            'set is updated with the clique (accumulator `%s`)' % acc)
     ok_store = False
-    if store is not None and sepvar is not None:
-        v = store.value
-        want = {'%s[%s].log()' % (marg, cl), '%s[%s].project(%s).log()' % (marg, cl, sepvar)}
-        if isinstance(v, ast.BinOp) and isinstance(v.op, ast.Sub):
-            ok_store = U(v.left) == '%s[%s].log()' % (marg, cl) and U(v.right) == '%s[%s].project(%s).log()' % (marg, cl, sepvar)
-    ctx.ob('mle-form', fi, store or loop, ok_store,
-           'potential of a clique must be log(marginal) - log(marginal projected onto the separator)')
+    got = None
+    if store is not None:
+        v = expand(store[1].value, defs, keep=(marg, cl, acc))
+        got = U(v).replace(' ', '')
+        m = '%s[%s]' % (marg, cl)
+        seps = ['tuple(%s&set(%s))' % (acc, cl), 'tuple(set(%s)&%s)' % (cl, acc), 'list(%s&set(%s))' % (acc, cl),
+                'sorted(%s&set(%s))' % (acc, cl)]
+        ok_store = any(got == '%s.log()-%s.project(%s).log()' % (m, m, sp) for sp in seps)
+    ctx.ob('mle-form', fi, store[1] if store else loop, ok_store,
+           'potential of a clique must be log(marginal) - log(marginal projected onto the separator); source (locals expanded): `%s`' % got)
